@@ -11,11 +11,22 @@ Monte-Carlo loop with `bioDraws` reading `table[obs][r][drawId]` (engine modelle
 `Derive.get_signature`, `diffLit` / `deriveNamed` the engine's derivative w.r.t. a literal id.  The Gaussian
 closed forms are the oracle family against which the numerical-integration operator is compared
 (its quadrature error for general integrands is not proved: PARTIAL).
+
+Round 3 (Model/McSession.lean, Proofs/McSession.lean): the generators have a state (numpy's global generator)
+threaded through the loop of `generate_draws` (`generateDrawsS`, `stateBefore`); the two call sites of
+`generate_draws` (`IdManager.prepare`, `BIOGEME._generate_draws`) pass `callNames` = the sorted names, and that
+order is forced by the `drawId` numbering; `initBiogeme` = `BIOGEME.__init__` (seed policy, three generation
+rounds, the second one copied to the engine); a session is a `List Op` fold over a world (global generator,
+`Database.theDraws`, the objects created so far): objects created / evaluated / `number_of_draws` assigned,
+expressions evaluated with `prepare_ids=True`, functions made by `create_function` and called later, numbers
+taken from the generator.  The literal id of each of the five groups of the numbering.
 -/
 import Model.Integrals
 import Proofs.Integrals
 import Proofs.IntegralsReal
 import Proofs.Gaussian
+import Model.McSession
+import Proofs.McSession
 
 open Integrals
 
@@ -352,5 +363,317 @@ theorem integral_poly_phi_exp (a c0 c1 c2 : ℝ) :
     ∫ x : ℝ, (c0 + c1 * x + c2 * x ^ 2) * (φ x * Real.exp (a * x))
       = Real.exp (a ^ 2 / 2) * (c0 + c1 * a + c2 * (1 + a ^ 2)) :=
   Gaussian.integral_poly_phi_exp a c0 c1 c2
+
+/-! ### round 3: generators with a state, the two call sites, sessions with BIOGEME objects -/
+
+open McSession in
+/-- **Draw-table indexing when the generators have a state** (numpy's global generator): entry `[n][r][k]` of
+the table is entry `[n][r]` of what the generator serving the declared type of the `k`-th name returned *when
+it was called for that name*, i.e. from the state left by the names served before it. -/
+theorem table_index_stateful {σ α : Type} (dflt : α) (native user : List String) (typeOf : String → String)
+    (gen : Gen σ α) (names : List String) (N R : Nat) (s s' : σ) (table : List (List (List α)))
+    (h : generateDrawsS dflt native user typeOf gen names N R s = (.ok table, s'))
+    (n r k : Nat) (hn : n < N) (hr : r < R) (hk : k < names.length) :
+    ∃ src, dispatch native user (typeOf names[k]) = .ok src ∧
+      entry dflt table n r k
+        = (((gen src (stateBefore native user typeOf gen N R names s k) N R).1).getD n []).getD r dflt :=
+  generateDrawsS_entry dflt native user typeOf gen names N R s s' table h n r k hn hr hk
+
+open McSession in
+/-- **variable A is fed series A, generators with a state**: with the list of names both call sites pass
+(`IdManager.draws.names`, sorted) the column `drawId name` holds what the generator of the declared type of
+`name` returned when it was called for `name`. -/
+theorem own_series_stateful {σ α : Type} (dflt : α) (native user : List String) (gen : Gen σ α) (d : Decl)
+    (N R : Nat) (s s' : σ) (table : List (List (List α)))
+    (h : generateDrawsS dflt native user (declType d) gen (callNames d) N R s = (.ok table, s'))
+    (name : String) (hname : name ∈ declNames d) (n r : Nat) (hn : n < N) (hr : r < R) :
+    ∃ src, dispatch native user (declType d name) = .ok src ∧
+      entry dflt table n r (drawId (declNames d) name)
+        = (((gen src (stateBefore native user (declType d) gen N R (callNames d) s
+            (drawId (declNames d) name)) N R).1).getD n []).getD r dflt := by
+  have hk := drawId_lt (declNames d) name hname
+  obtain ⟨src, h1, h2⟩ := generateDrawsS_entry dflt native user (declType d) gen (callNames d) N R s s'
+    table h n r (drawId (declNames d) name) hn hr hk
+  unfold callNames at h1
+  rw [sortNames_drawId (declNames d) name hname] at h1
+  exact ⟨src, h1, h2⟩
+
+/-- **the order of the names handed to `generate_draws` is forced by the numbering of `IdManager.prepare`**:
+a call site (`IdManager.prepare`, `BIOGEME._generate_draws`) that passes a list `ns` of the right length in
+which every draw variable sits at its own `drawId` passes the sorted list — any other order of the same
+names (e.g. the order of appearance in the formula) feeds some variable the series of another one. -/
+theorem call_site_order_forced (declared ns : List String) (hl : ns.length = (sortNames declared).length)
+    (h : ∀ name ∈ declared, ns[drawId declared name]? = some name) : ns = sortNames declared :=
+  McSession.names_order_forced declared ns hl h
+
+/-- … and the order of appearance is refuted on a witness: `zeta` used before `alpha` -/
+theorem appearance_order_refuted :
+    ∃ declared : List String, ∃ name ∈ declared, declared[drawId declared name]? ≠ some name := by
+  refine ⟨["zeta", "alpha"], "zeta", by decide, ?_⟩
+  unfold drawId
+  rw [McSession.sortNames_zeta_alpha]
+  decide
+
+example : sortNames ["zeta", "alpha", "zeta", "b10", "b2"] = ["alpha", "b10", "b2", "zeta"] := by
+  unfold sortNames
+  rw [show (["zeta", "alpha", "zeta", "b10", "b2"] : List String).eraseDups = ["zeta", "alpha", "b10", "b2"]
+    from by decide]
+  simp [List.mergeSort, List.MergeSort.Internal.splitInTwo]
+example : drawId ["zeta", "alpha"] "zeta" = 1 ∧ drawId ["zeta", "alpha"] "alpha" = 0 := by
+  unfold drawId; rw [McSession.sortNames_zeta_alpha]; decide
+/-- the hypotheses of `call_site_order_forced` hold for the sorted list and fail for the order of appearance -/
+example : ∀ name ∈ ["zeta", "alpha"], (sortNames ["zeta", "alpha"])[drawId ["zeta", "alpha"] name]? = some name := by
+  intro name hn
+  unfold drawId
+  rw [McSession.sortNames_zeta_alpha]
+  simp only [List.mem_cons, List.not_mem_nil, or_false] at hn
+  rcases hn with rfl | rfl <;> decide
+
+open McSession in
+/-- **both call sites of a BIOGEME constructor agree, and the engine receives the second round**: a
+constructor that succeeds (`seed`, then `reset_id_manager`, `_generate_draws`, `setDraws`, `reset_id_manager`)
+leaves in the engine the table `generate_draws` built for the sorted names from the generator state left by
+the first round, the first round starting from the state `seedPolicy` gives. -/
+theorem biogeme_engine_is_second_round {σ α : Type} (E : Env σ α) (seed : Nat) (d : Decl) (R : Nat)
+    (w w' : World σ α) (o : Obj α) (hd : d.isEmpty = false)
+    (h : initBiogeme E seed d R w = (w', some o, none)) :
+    o.decl = d ∧ ∃ t1 s1 t2 s2,
+      generateDrawsS E.dflt E.native E.user (declType d) E.gen (callNames d) E.N R
+        (seedPolicy E.fresh seed w.rng) = (.ok t1, s1) ∧
+      generateDrawsS E.dflt E.native E.user (declType d) E.gen (callNames d) E.N R s1 = (.ok t2, s2) ∧
+      o.engine = some t2 :=
+  initBiogeme_engine E seed d R w w' o hd h
+
+open McSession in
+/-- **an evaluation through a BIOGEME object (simulate, calculate_likelihood, …) substitutes for every draw
+variable the series of its own type**: what the generator registered for the declared type of `name` returned
+when it was called for `name` in the second round of the constructor. -/
+theorem biogeme_reads_own_series {σ α : Type} (E : Env σ α) (seed : Nat) (d : Decl) (R : Nat)
+    (w w' : World σ α) (o : Obj α) (hd : d.isEmpty = false)
+    (h : initBiogeme E seed d R w = (w', some o, none))
+    (name : String) (hname : name ∈ declNames d) (n r : Nat) (hn : n < E.N) (hr : r < R) :
+    ∃ src s1, dispatch E.native E.user (declType d name) = .ok src ∧
+      readBiogeme E.dflt o n r name
+        = (((E.gen src (stateBefore E.native E.user (declType d) E.gen E.N R (callNames d) s1
+            (drawId (declNames d) name)) E.N R).1).getD n []).getD r E.dflt := by
+  obtain ⟨hdecl, t1, s1, t2, s2, _, g2, he⟩ := initBiogeme_engine E seed d R w w' o hd h
+  obtain ⟨src, h1, h2⟩ := own_series_stateful E.dflt E.native E.user E.gen d E.N R s1 s2 t2 g2 name hname
+    n r hn hr
+  refine ⟨src, s1, h1, ?_⟩
+  unfold readBiogeme
+  rw [he, hdecl]
+  exact h2
+
+open McSession in
+/-- **an expression evaluated with `prepare_ids=True` (get_value_c, get_value_and_derivatives,
+create_function) reads the table generated in that very call**, every variable its own series -/
+theorem expr_reads_own_series {σ α : Type} (E : Env σ α) (d : Decl) (R : Nat) (w : World σ α)
+    (hd : d.isEmpty = false) (h : (step E w (.evalExpr d R)).2 = none)
+    (name : String) (hname : name ∈ declNames d) (n r : Nat) (hn : n < E.N) (hr : r < R) :
+    ∃ src, dispatch E.native E.user (declType d name) = .ok src ∧
+      readExpr E.dflt (step E w (.evalExpr d R)).1 d n r name
+        = (((E.gen src (stateBefore E.native E.user (declType d) E.gen E.N R (callNames d) w.rng
+            (drawId (declNames d) name)) E.N R).1).getD n []).getD r E.dflt := by
+  simp only [step, prepareDraws, hd, Bool.false_eq_true, if_false] at h ⊢
+  rcases g : generateDrawsS E.dflt E.native E.user (declType d) E.gen (callNames d) E.N R w.rng with ⟨res, s⟩
+  rw [g] at h
+  cases res with
+  | error e => simp at h
+  | ok t =>
+    obtain ⟨src, h1, h2⟩ := own_series_stateful E.dflt E.native E.user E.gen d E.N R w.rng s t g name hname
+      n r hn hr
+    exact ⟨src, h1, h2⟩
+
+open McSession in
+/-- **whatever happens afterwards** — other BIOGEME objects on the same database, expressions evaluated on
+it (which overwrite `Database.theDraws`), numbers taken from the global generator, `number_of_draws`
+assigned on the object — **an object keeps its formulas and the table its engine received** -/
+theorem engine_frozen {σ α : Type} (E : Env σ α) (ops : List Op) (w : World σ α) (i : Nat) (o : Obj α)
+    (h : w.objs[i]? = some o) :
+    ∃ o', (run E w ops).objs[i]? = some o' ∧ o'.decl = o.decl ∧ o'.engine = o.engine :=
+  run_keeps E ops w i o h
+
+open McSession in
+/-- **with a non-zero seed the results are reproducible**: the object a constructor builds (its engine table
+included), the error it raises and the generator state it leaves are the same in any two worlds — two BIOGEME
+objects in one process, whatever was evaluated or drawn in between. -/
+theorem seeded_objects_identical {σ α : Type} (E : Env σ α) (seed : Nat) (hs : seed ≠ 0) (d : Decl) (R : Nat)
+    (w₁ w₂ : World σ α) (hd : d.isEmpty = false) :
+    (initBiogeme E seed d R w₁).2 = (initBiogeme E seed d R w₂).2 ∧
+    (initBiogeme E seed d R w₁).1.rng = (initBiogeme E seed d R w₂).1.rng :=
+  initBiogeme_sim E seed d R w₁ w₂ hd (by simp [seedPolicy, hs])
+
+open McSession in
+/-- **seed 0 does not touch the generator**: the constructor continues from the current state (two worlds with
+the same generator state give the same object) -/
+theorem seed_zero_continues {σ α : Type} (E : Env σ α) (d : Decl) (R : Nat) (w₁ w₂ : World σ α)
+    (hd : d.isEmpty = false) (hr : w₁.rng = w₂.rng) :
+    (initBiogeme E 0 d R w₁).2 = (initBiogeme E 0 d R w₂).2 ∧
+    (initBiogeme E 0 d R w₁).1.rng = (initBiogeme E 0 d R w₂).1.rng :=
+  initBiogeme_sim E 0 d R w₁ w₂ hd (by simp [seedPolicy, hr])
+
+open McSession in
+/-- **end to end through a BIOGEME object**: the Monte-Carlo operator evaluated by the object's engine returns
+the arithmetic mean over the draws of its argument with every draw variable replaced by what `readBiogeme`
+reads (by `biogeme_reads_own_series`: its own series of the constructor's second round). -/
+theorem biogeme_mc_mean (o : Obj ℝ) (betas row : List ℝ) (n R : ℕ) (e : IExpr) :
+    monteCarlo (declNames o.decl) (o.engine.getD []) betas row n R e
+      = ((List.range R).map fun r => evalI betas row (readBiogeme 0 o n r) e).sum / (R : ℝ) :=
+  mc_mean (declNames o.decl) (o.engine.getD []) betas row n R e
+
+open McSession in
+/-- the r-th draw of observation `n` of the series the registered generator returned for `name` when
+`generate_draws` was run for the sorted names of `d` from generator state `s` (0 if the type is unknown) -/
+noncomputable def ownDrawS {σ : Type} (E : Env σ ℝ) (d : Decl) (R : ℕ) (s : σ) (n r : ℕ) (name : String) : ℝ :=
+  match dispatch E.native E.user (declType d name) with
+  | .ok src => (((E.gen src (stateBefore E.native E.user (declType d) E.gen E.N R (callNames d) s
+      (drawId (declNames d) name)) E.N R).1).getD n []).getD r 0
+  | .error _ => 0
+
+open McSession in
+/-- **End to end through a BIOGEME object (first sentence of the property, generators with a state).**  For an
+object built by a constructor that succeeded, the Monte-Carlo operator evaluated by the object's engine returns,
+for observation `n`, the arithmetic mean over the `R` draws of its argument with every named draw variable
+replaced by that observation's `r`-th draw of its own series — what the generator registered for its declared
+type returned when it was called for that variable in the constructor's second generation round (`s1` = the
+generator state left by the first round, itself started from the state the seed policy gives).  By
+`engine_frozen` this holds after any later history on the same database. -/
+theorem biogeme_mc_denotes_mean {σ : Type} (E : Env σ ℝ) (hE : E.dflt = 0) (seed : ℕ) (d : Decl) (R : ℕ)
+    (w w' : World σ ℝ) (o : Obj ℝ) (hd : d.isEmpty = false)
+    (h : initBiogeme E seed d R w = (w', some o, none))
+    (betas row : List ℝ) (n : ℕ) (hn : n < E.N) (e : IExpr) (he : ∀ name ∈ drawsOf e, name ∈ declNames d) :
+    ∃ t1 s1, generateDrawsS E.dflt E.native E.user (declType d) E.gen (callNames d) E.N R
+        (seedPolicy E.fresh seed w.rng) = (.ok t1, s1) ∧
+      monteCarlo (declNames o.decl) (o.engine.getD []) betas row n R e
+        = ((List.range R).map fun r => evalI betas row (ownDrawS E d R s1 n r) e).sum / (R : ℝ) := by
+  obtain ⟨hdecl, t1, s1, t2, s2, g1, g2, he'⟩ := initBiogeme_engine E seed d R w w' o hd h
+  refine ⟨t1, s1, g1, ?_⟩
+  rw [biogeme_mc_mean]
+  congr 2
+  apply List.map_congr_left
+  intro r hr
+  apply evalI_congr
+  intro name hname
+  obtain ⟨src, h1, h2⟩ := own_series_stateful E.dflt E.native E.user E.gen d E.N R s1 s2 t2 g2 name
+    (he name hname) n r hn (List.mem_range.mp hr)
+  unfold readBiogeme ownDrawS
+  rw [he', hdecl, h1]
+  rw [hE] at h2
+  simpa using h2
+
+open McSession in
+/-- the hypotheses of `biogeme_mc_denotes_mean` / `biogeme_reads_own_series` are satisfiable over ℝ: a constructor
+that succeeds (one draw variable, a generator returning a table of ones), default entry 0 -/
+example :
+    initBiogeme (σ := Unit) (α := ℝ)
+        ⟨0, ["NORMAL"], [], fun _ s N R => (List.replicate N (List.replicate R 1), s), fun _ => (), fun s _ => s, 1⟩
+        7 [("zeta", "NORMAL")] 1 ⟨(), none, []⟩
+      = (⟨(), some [[[1]]], []⟩, some ⟨[("zeta", "NORMAL")], some [[[1]]], 1⟩, none) := by
+  simp [initBiogeme, prepareDraws, generateDrawsS, collectS, callNames, declNames, declType, dispatch, shapeOk,
+    seedPolicy, moveAxis, show sortNames ["zeta"] = ["zeta"] from by decide +kernel]
+
+open McSession in
+/-- a session on the instance run by the driver: a first object (seed 7), numbers taken from the generator, an
+expression evaluated on the same database, `number_of_draws` assigned, a second object with the same seed —
+both constructors succeed and the two engine tables are the same description -/
+example :
+    let E := logEnv ["NORMAL", "UNIFORM"] ["G0"] 2
+    let d : Decl := [("zeta", "NORMAL")]
+    let w := run E ⟨[], none, []⟩ [.newBiogeme 7 d 2, .consume 5, .evalExpr [("x", "UNIFORM")] 3,
+      .setNumberOfDraws 0 9, .newBiogeme 7 d 2]
+    (w.objs[0]?.map (·.engine)) = (w.objs[1]?.map (·.engine)) ∧ w.objs.length = 2 ∧
+      (w.objs[0]?.map (·.numberOfDraws)) = some 9 ∧
+      (w.objs[0]?.map (·.engine)) ≠ some none ∧ w.theDraws ≠ none := by
+  decide +kernel
+
+open McSession in
+/-- **a function made by `create_function` reads its own series — PARTIAL**: under the guard that nothing
+regenerates `Database.theDraws` between the creation and the call (numbers taken from the generator, evaluations
+of BIOGEME objects, `number_of_draws` assigned, other calls of the function are allowed).  Missing: the
+calculator hands `database.theDraws` *as it is at the time of the call* to the engine, so an expression evaluated
+with `prepare_ids=True` or a BIOGEME object built on the same database in between changes what the function
+reads (`function_reads_later_table`). -/
+theorem function_reads_own_series_partial {σ α : Type} (E : Env σ α) (d : Decl) (R : Nat) (w : World σ α)
+    (hd : d.isEmpty = false) (h : (step E w (.createFunction d R)).2 = none)
+    (ops : List Op) (hq : ∀ op ∈ ops, op.quiet = true)
+    (name : String) (hname : name ∈ declNames d) (n r : Nat) (hn : n < E.N) (hr : r < R) :
+    ∃ src, dispatch E.native E.user (declType d name) = .ok src ∧
+      readExpr E.dflt (run E (step E w (.createFunction d R)).1 ops) d n r name
+        = (((E.gen src (stateBefore E.native E.user (declType d) E.gen E.N R (callNames d) w.rng
+            (drawId (declNames d) name)) E.N R).1).getD n []).getD r E.dflt := by
+  obtain ⟨src, h1, h2⟩ := expr_reads_own_series E d R w hd (by simpa [step] using h) name hname n r hn hr
+  refine ⟨src, h1, ?_⟩
+  unfold readExpr at h2 ⊢
+  rw [run_quiet_theDraws E ops _ hq]
+  simpa [step] using h2
+
+open McSession in
+/-- … and without the guard the statement is false of the code: after another expression was evaluated on the
+same database, the function reads the table generated for that expression -/
+theorem function_reads_later_table :
+    let E := logEnv ["NORMAL", "UNIFORM"] [] 1
+    let d : Decl := [("zeta", "NORMAL")]
+    let w₁ := run E ⟨[], none, []⟩ [.createFunction d 1]
+    let w₂ := run E w₁ [.evalExpr [("x", "UNIFORM")] 1]
+    readExpr E.dflt w₁ d 0 0 "zeta" = ⟨[.call (.native "NORMAL") 1 1], 0, 0⟩ ∧
+    readExpr E.dflt w₂ d 0 0 "zeta" = ⟨[.call (.native "NORMAL") 1 1, .call (.native "UNIFORM") 1 1], 0, 0⟩ := by
+  decide +kernel
+
+/-! ### the five groups of the literal numbering -/
+
+/-- a free parameter is numbered by its position among the sorted free parameters -/
+theorem derive_index_free (free fixed rvs draws cols : List String) (name : String) (h : name ∈ free) :
+    literalIndex (allLiterals free fixed rvs draws cols) name = (sortNames free).idxOf name := by
+  unfold literalIndex allLiterals
+  have m := (mem_sortNames free name).2 h
+  rw [List.append_assoc, List.append_assoc, List.append_assoc, List.idxOf_append_of_mem m]
+
+/-- a fixed parameter comes after all free ones -/
+theorem derive_index_fixed (free fixed rvs draws cols : List String) (name : String) (h1 : name ∉ free)
+    (h : name ∈ fixed) :
+    literalIndex (allLiterals free fixed rvs draws cols) name
+      = (sortNames free).length + (sortNames fixed).idxOf name := by
+  unfold literalIndex allLiterals
+  have n1 := mt (mem_sortNames free name).1 h1
+  have m := (mem_sortNames fixed name).2 h
+  rw [List.append_assoc, List.append_assoc, List.append_assoc, List.idxOf_append_of_notMem n1,
+    List.idxOf_append_of_mem m]
+
+/-- a random variable of numerical integration comes after all parameters -/
+theorem derive_index_rv (free fixed rvs draws cols : List String) (name : String) (h1 : name ∉ free)
+    (h2 : name ∉ fixed) (h : name ∈ rvs) :
+    literalIndex (allLiterals free fixed rvs draws cols) name
+      = (sortNames free).length + (sortNames fixed).length + (sortNames rvs).idxOf name := by
+  unfold literalIndex allLiterals
+  have n1 := mt (mem_sortNames free name).1 h1
+  have n2 := mt (mem_sortNames fixed name).1 h2
+  have m := (mem_sortNames rvs name).2 h
+  rw [List.append_assoc, List.append_assoc, List.append_assoc, List.idxOf_append_of_notMem n1,
+    List.idxOf_append_of_notMem n2, List.idxOf_append_of_mem m, Nat.add_assoc]
+
+/-- **the two numbers of a draw variable's signature line**: its literal id is the number of parameters and
+random variables + its `drawId` (the column of the draw table) -/
+theorem derive_index_draw (free fixed rvs draws cols : List String) (name : String) (h1 : name ∉ free)
+    (h2 : name ∉ fixed) (h3 : name ∉ rvs) (h : name ∈ draws) :
+    literalIndex (allLiterals free fixed rvs draws cols) name
+      = (sortNames free).length + (sortNames fixed).length + (sortNames rvs).length + drawId draws name := by
+  unfold literalIndex allLiterals drawId
+  have n1 := mt (mem_sortNames free name).1 h1
+  have n2 := mt (mem_sortNames fixed name).1 h2
+  have n3 := mt (mem_sortNames rvs name).1 h3
+  have m := (mem_sortNames draws name).2 h
+  rw [List.append_assoc, List.append_assoc, List.append_assoc, List.idxOf_append_of_notMem n1,
+    List.idxOf_append_of_notMem n2, List.idxOf_append_of_notMem n3, List.idxOf_append_of_mem m]
+  omega
+
+/-- every group non-empty, appearance order ≠ alphabetical in two of them: `b10 b2 | fx | omega | alpha zeta | Z Y` -/
+example : literalIndex (allLiterals ["b2", "b10"] ["fx"] ["omega"] ["zeta", "alpha"] ["Z", "Y"]) "zeta" = 5 ∧
+    literalIndex (allLiterals ["b2", "b10"] ["fx"] ["omega"] ["zeta", "alpha"] ["Z", "Y"]) "b2" = 1 ∧
+    literalIndex (allLiterals ["b2", "b10"] ["fx"] ["omega"] ["zeta", "alpha"] ["Z", "Y"]) "omega" = 3 ∧
+    literalIndex (allLiterals ["b2", "b10"] ["fx"] ["omega"] ["zeta", "alpha"] ["Z", "Y"]) "Y" = 7 := by
+  unfold literalIndex allLiterals
+  rw [McSession.sortNames_b2_b10, McSession.sortNames_zeta_alpha, show sortNames ["fx"] = ["fx"] from by decide +kernel,
+    show sortNames ["omega"] = ["omega"] from by decide +kernel]
+  decide
 
 end C10
